@@ -42,6 +42,14 @@ inductive Action where
   | libInit
   /-- `aws_thread_current_name`: reads the calling thread's name -/
   | getName
+  /-- `aws_thread_launch` of slot `k` in which one of the attribute steps in front of the wrapper allocation
+      (`pthread_attr_init` / `setstacksize` / `getstacksize`, errno `err`) fails and no retry applies: the launch
+      returns the error; nothing was counted or allocated yet, only the handle of a managed launch is already marked -/
+  | launchAttr (k err : Nat)
+  /-- `aws_common_library_init` on the library that `aws_common_library_clean_up` has just shut down (the harness op
+      `X` is clean-up = `joinAll` with its result ignored, then this, then `getCount`): the pending-join list head
+      is re-initialised, the unjoined count is left alone -/
+  | libReinit
   deriving DecidableEq, Repr, Inhabited
 
 inductive Status where
@@ -113,6 +121,8 @@ inductive Instr where
   | pjaSwapPush
   | libInit
   | logName
+  | markM (k : Nat)          -- top of aws_thread_launch: `thread->detach_state = AWS_THREAD_MANAGED` for a managed launch
+  | libReinit                -- aws_thread_initialize_thread_management on the re-initialised library
   deriving DecidableEq, Repr, Inhabited
 
 structure Th where
@@ -148,6 +158,7 @@ structure Prog where
   failAt : Option Nat := none
   failErr : Nat := 11
   tick : Nat := 0
+  start : Nat := 0      -- virtual clock at the start of the run (0 = 1 s)
 
 structure State where
   th : Nat → Th
@@ -166,6 +177,8 @@ structure State where
   misuse : Nat := 0     -- pthread_join calls on an id that is not the thread's (ESRCH)
   cbLive : Nat := 0
   onceDone : Nat → Bool := fun _ => false    -- pthread_once flags whose init routine has run
+  jlog : List Nat := []   -- virtual time at every join-all begin / return event (newest first; printed with the P lines)
+  dropped : Nat := 0      -- wrappers that were parked in the pending-join list when the library was re-initialised
   log : List Ev := []
   wlog : List WEv := []
 
@@ -175,8 +188,12 @@ def upd {α : Type} (f : Nat → α) (k : Nat) (v : α) : Nat → α := fun j =>
 @[simp] theorem upd_other {α : Type} (f : Nat → α) (k j : Nat) (v : α) (h : j ≠ k) : upd f k v j = f j := by
   simp [upd, h]
 
-def init (_P : Prog) : State :=
-  { th := fun j => if j = 0 then { status := .created, ord := 0 } else {} }
+def init (P : Prog) : State :=
+  { th := fun j => if j = 0 then { status := .created, ord := 0 } else {},
+    now := if P.start = 0 then 1000000000 else P.start }
+
+/-- `uint64_t` arithmetic of the managed-join deadline (bridged to the C expressions in `Props/C20.lean`) -/
+def U64 : Nat := 18446744073709551616
 
 def ETIMEDOUT : Nat := 110
 
@@ -218,6 +235,8 @@ def expand (P : Prog) (s : State) (_t : Nat) : Action → List Instr
   | .once id => [.onceCall id]
   | .libInit => [.libInit]
   | .getName => [.logName]
+  | .launchAttr k e => [.markM k, .logLaunch k e]
+  | .libReinit => [.libReinit]
 
 /-- code a managed thread runs after its at-exit chain: `aws_thread_pending_join_add` -/
 def handOverCode : List Instr := [.lock, .pjaSwapPush]
@@ -260,7 +279,8 @@ def exec (P : Prog) (s : State) (t : Nat) (i : Instr) (rest : List Instr) : Opti
     if me.rErr ≠ 0 ∨ s.count ≤ 1 then some (cont s t me rest)
     else
       let now' := s.now + P.tick
-      some (cont { s with now := now' } t { me with deadline := some (now' + me.rWait) } ([.cwait true, .cwake, .waitForPred] ++ rest))
+      -- aws_condition_variable_wait_for: `(uint64_t)(time_to_wait + current_sys_time)` after a fresh clock read
+      some (cont { s with now := now' } t { me with deadline := some ((me.rWait + now') % U64) } ([.cwait true, .cwake, .waitForPred] ++ rest))
   | .lock =>
     if s.lockOwner = none then some (pushW (cont { s with lockOwner := some t } t me rest) (wev s t "lock" "m0" 0)) else none
   | .unlock =>
@@ -365,12 +385,12 @@ def exec (P : Prog) (s : State) (t : Nat) (i : Instr) (rest : List Instr) : Opti
   | .readCount => some (cont s t { me with rVal := s.count } rest)
   | .logCount => some (pushLog (cont s t me rest) (.count t me.rVal))
   | .setTo ns => some (cont { s with timeoutNs := ns } t me rest)
-  | .jaBegin => some (pushLog (cont s t { me with rSnap := launchedManaged P s P.n } rest) (.joinAllBegin t))
+  | .jaBegin => some (pushLog (cont { s with jlog := s.now :: s.jlog } t { me with rSnap := launchedManaged P s P.n } rest) (.joinAllBegin t))
   | .readTo => some (cont s t { me with rTo := s.timeoutNs } rest)
   | .jaInit =>
     if me.rTo > 0 then
       let now' := s.now + P.tick
-      some (cont { s with now := now' } t { me with rNow := now', rTs := now' + me.rTo, rOk := true } rest)
+      some (cont { s with now := now' } t { me with rNow := now', rTs := (now' + me.rTo) % U64, rOk := true } rest)
     else some (cont s t { me with rNow := 0, rTs := 0, rOk := true } rest)
   | .jaCheck =>
     let now' := s.now + P.tick
@@ -379,7 +399,14 @@ def exec (P : Prog) (s : State) (t : Nat) (i : Instr) (rest : List Instr) : Opti
     let ok := me.rOk && !timedOut
     some (cont { s with now := now', pending := [] } t { me with rNow := now', rOk := ok }
       ([.unlock, .joinAndFree s.pending] ++ (if done then [Instr.jaRet ok me.rSnap] else [Instr.jaLoop]) ++ rest))
-  | .jaRet ok snap => some (pushLog (cont s t me rest) (.joinAllRet t ok snap))
+  | .jaRet ok snap => some (pushLog (cont { s with jlog := s.now :: s.jlog } t me rest) (.joinAllRet t ok snap))
+  | .markM k => some (cont { s with hstate := if P.managed k then upd s.hstate k .managed else s.hstate } t me rest)
+  -- /repo: `aws_linked_list_init(&s_pending_join_managed_threads)`, the count is left alone.  With an empty list
+  -- (always, unless a managed thread handed itself over between the final swap of a TIMED-OUT join-all and this
+  -- point) that changes nothing.  Wrappers parked in the list at this moment are dropped by /repo (never joined,
+  -- leaked, the count never comes down: recorded as an observation); the model counts them in `dropped`, which
+  -- the driver reports, and does not follow /repo any further on such an execution
+  | .libReinit => some (cont { s with dropped := s.dropped + s.pending.length } t me rest)
   | .pjaSwapPush =>
     some (cont { s with pending := [t], hoCtr := s.hoCtr + 1 } t
       { me with status := if me.status = .atexitDone then .handedOver else me.status, hoSeq := s.hoCtr + 1 }
